@@ -218,3 +218,35 @@ pub fn run_c05(rep: &mut Report, tier: &str, seed: u64) -> Result<(), String> {
     rep.streams.push(corr);
     Ok(())
 }
+
+/// replay of one file for C02 / C03 / C05: {"input": document, "has_root"?: bool}
+pub fn replay(rep: &mut Report, prop: &str, v: &serde_json::Value) {
+    let mut st = Stream::new("replay", "oracle", "one replay file judged against the implementation (default configuration)");
+    st.case("replay", true, || v.clone());
+    let doc = v.get("input").and_then(|x| x.as_str()).unwrap_or("");
+    let has_root = v.get("has_root").and_then(|x| x.as_bool()).unwrap_or(doc.trim_start().starts_with("<svg") || doc.trim_start().starts_with("<?xml"));
+    let mut ex = match Expat::start() { Ok(e) => e, Err(e) => { rep.notes.push(format!("HARNESS-ERROR: {e}")); rep.streams.push(st); return; } };
+    let fail = |rep: &mut Report, what: String| rep.violation(Violation { kind: "oracle", stream: "replay".into(), signature: format!("{prop}:replay"), what, replay: v.clone(), confirmed_on_impl: true });
+    match transform(doc, &default_cfg()) {
+        Err(p) => fail(rep, format!("panic: {p}")),
+        Ok(Err(e)) => { if prop == "C03" { fail(rep, format!("the transform fails: {e}")) } else { st.exact += 1 } }
+        Ok(Ok(out)) => match prop {
+            "C02" => match check_wellformed(&mut ex, &out, has_root) { None => st.exact += 1, Some((_, what)) => fail(rep, what) },
+            "C03" => {
+                // pass-through: same infoset as the input
+                match (ex.parse(doc.as_bytes()), ex.parse(out.as_bytes())) {
+                    (Ok(a), Ok(b)) => if a["infoset"] == b["infoset"] { st.exact += 1 } else { fail(rep, "the output's infoset differs from the input's".into()) },
+                    (Err(_), _) => st.exact += 1, // not a well-formed real-SVG input: outside the property
+                    (_, Err(e)) => fail(rep, format!("independent parser rejects the output: {e}")),
+                }
+            }
+            _ => match transform(&out, &default_cfg()) {
+                Ok(Ok(again)) if again == out => st.exact += 1,
+                Ok(Ok(_)) => fail(rep, "processing the output again changes it".into()),
+                Ok(Err(e)) => fail(rep, format!("processing the output again fails: {e}")),
+                Err(p) => fail(rep, format!("panic on the second pass: {p}")),
+            },
+        },
+    }
+    rep.streams.push(st);
+}
